@@ -54,6 +54,37 @@ fn answer(text: &[char], chunks: &[usize]) -> (String, Vec<String>) {
             Err(_) => lc.push("P".to_string()),
         }
     }
+    // the other two ways of building a cache (`FromStr`, `FromIterator`) must answer like `feed`
+    {
+        use std::str::FromStr;
+        let others: Vec<(&str, Result<NewlineCache, String>)> = vec![
+            ("from_str", guarded(std::panic::AssertUnwindSafe(|| NewlineCache::from_str(&s).unwrap()))),
+            ("from_iter", guarded(std::panic::AssertUnwindSafe(|| NewlineCache::from_iter(vec![s.as_str()])))),
+        ];
+        for (name, o) in others {
+            match o {
+                Err(e) => fails.push(format!("NewlineCache::{} panicked: {}", name, e)),
+                Ok(o) => {
+                    for b in 0..len + 2 {
+                        let x = guarded(std::panic::AssertUnwindSafe(|| (o.byte_to_line_num(b), o.byte_to_line_byte(b))));
+                        let y = guarded(std::panic::AssertUnwindSafe(|| (nlc.byte_to_line_num(b), nlc.byte_to_line_byte(b))));
+                        if x.as_ref().ok() != y.as_ref().ok() {
+                            fails.push(format!("cache built with {} answers {:?} at offset {}, the cache built with feed {:?}", name, x, b, y));
+                            break;
+                        }
+                    }
+                    for &b in &bounds {
+                        let x = guarded(std::panic::AssertUnwindSafe(|| o.byte_to_line_num_and_col_num(&s, b)));
+                        let y = guarded(std::panic::AssertUnwindSafe(|| nlc.byte_to_line_num_and_col_num(&s, b)));
+                        if x.as_ref().ok() != y.as_ref().ok() {
+                            fails.push(format!("cache built with {} gives line/col {:?} at offset {}, the cache built with feed {:?}", name, x, b, y));
+                            break;
+                        }
+                    }
+                }
+            }
+        }
+    }
     let mut sp = Vec::new();
     // the same cache behind the lexer API that error reporting uses
     let lexer: LRNonStreamingLexer<DefaultLexerTypes<u32>> =
@@ -183,6 +214,24 @@ pub fn run(a: &Args) {
                 emit(&mut out, &text, &ch, "exhaustive");
             }
         }
+    }
+    // texts with many lines (more line starts than any small-size shortcut of the look-up could cover)
+    for case in 0..(if a.thorough { 40 } else { 6 }) {
+        let mut rng = Rng::for_case(a.seed, 19, 1_000_000 + case as u64);
+        let lines = rng.range(33, 70);
+        let mut text: Vec<char> = Vec::new();
+        for _ in 0..lines {
+            for _ in 0..rng.below(4) {
+                text.push(*rng.pick(&['a', 'b', '\u{e9}', '\r']));
+            }
+            text.push('\n');
+        }
+        if rng.chance(1, 2) {
+            text.push('z');
+        }
+        let n = text.len();
+        let ch = random_chunks(&mut rng, n);
+        emit(&mut out, &text, &ch, "many_lines");
     }
     // random texts
     let (count, maxlen) = if a.thorough { (3000, 40) } else { (300, 18) };
